@@ -330,6 +330,29 @@ class StreamInterp:
                     raise AnalysisError(f"{self.fn.key}: ** in a record constructor")
                 f[k.arg] = self.ev(k.value)
             return Record(self.rec_cls, f, c)
+        if self.rec_cls is not None and cn.startswith(self.rec_cls.name + ".") and cn.count(".") == 1:
+            # an alternative constructor of the record class: `@classmethod def at(cls, pos, key, value): return cls(pos, len(key), len(value))`
+            # is the expression it returns, with the arguments in place of its parameters
+            mem = self.rec_cls.members.get(cn.split(".")[1])
+            fnode = mem.func if mem is not None else None
+            if fnode is not None and any(norm(d) == "classmethod" for d in fnode.decorator_list) and not c.keywords and not any(isinstance(a, ast.Starred) for a in c.args):
+                rets = [s_ for s_ in walk_no_nested(fnode) if isinstance(s_, ast.Return) and s_.value is not None]
+                body = [s_ for s_ in fnode.body if not (isinstance(s_, ast.Expr) and isinstance(s_.value, ast.Constant))]
+                params = [a.arg for a in fnode.args.posonlyargs + fnode.args.args]
+                if len(rets) == 1 and len(body) == 1 and len(params) - 1 == len(c.args):
+                    import copy as _copy
+                    sub = dict(zip(params[1:], c.args))
+                    cls_name = params[0]
+                    rec_name = self.rec_cls.name
+
+                    class _S(ast.NodeTransformer):
+                        def visit_Name(self, n):
+                            if n.id in sub and isinstance(n.ctx, ast.Load):
+                                return _copy.deepcopy(sub[n.id])
+                            if n.id == cls_name:
+                                return ast.copy_location(ast.Name(rec_name, n.ctx), n)
+                            return n
+                    return self.ev(_S().visit(_copy.deepcopy(rets[0].value)))
         if cn in ("int",) and len(c.args) == 1:
             return self.ev(c.args[0])
         # evaluate arguments for their effects (walrus) only when they touch the stream
